@@ -260,7 +260,7 @@ class BuiltinsMixin(AccessMixin):
         return Unknown("vars")
 
     def bi_print(self, args, kwargs, node, frame):
-        self.event("print", args=args, where=frame.where(node), node=node)
+        self.event("print", args=args, file=kwargs.get("file"), where=frame.where(node), node=node)
         return None
 
     def bi_open(self, args, kwargs, node, frame):
@@ -753,6 +753,8 @@ class BuiltinsMixin(AccessMixin):
                             raise PyRaise(Instance(I.bclasses["TypeError"], (str(ex),)), n, f.where(n))
                     if name == "join":
                         return SymStr(("join", obj, I.name_of(a[0])))
+                    if name == "format":
+                        return I.str_dot_format(obj, a, k, n, f)
                     return SymStr((name, obj))
                 return I.mk("str." + name, smeth)
             return None
@@ -799,10 +801,36 @@ class BuiltinsMixin(AccessMixin):
                             return bytes(norm_int(c) for c in obj.cells).decode(*a)
                         except Exception as ex:
                             raise PyRaise(Instance(I.bclasses["UnicodeDecodeError"], (str(ex),)), n, f.where(n))
+                    codec = (a[0] if a else k.get("encoding", "utf-8"))
+                    errors = (a[1] if len(a) > 1 else k.get("errors", "strict"))
+                    total = isinstance(codec, str) and codec.lower().replace("_", "-") in ("latin-1", "latin1", "iso-8859-1", "iso8859-1", "cp437", "cp850")
+                    if not total and errors == "strict" and isinstance(obj, (View, Buf)) \
+                            and I.decide("the bytes are not valid %s" % (codec if isinstance(codec, str) else "text"), n, f):
+                        # bytes a device chose need not be text in that encoding
+                        raise PyRaise(Instance(I.bclasses["UnicodeDecodeError"], ("invalid start byte",)), n, f.where(n))
                     s = SymStr(("decode", I.name_of(obj) if not isinstance(obj, View) else ("view", obj.root, obj.lo, obj.hi)))
                     s.of_bytes = obj
                     return s
                 return I.mk("bytes.decode", dec)
+            if name in ("rstrip", "lstrip", "strip"):
+                def bstrip(a, k, n, f):
+                    chars = a[0] if a else None
+                    if isinstance(chars, Buf) and chars.cells is not None and all(isinstance(norm_int(c), int) for c in chars.cells):
+                        chars = bytes(norm_int(c) for c in chars.cells)
+                    if isinstance(obj, Buf) and obj.cells is not None and all(isinstance(norm_int(c), int) for c in obj.cells) \
+                            and (chars is None or isinstance(chars, bytes)):
+                        r = Buf(cells=list(getattr(bytes(norm_int(c) for c in obj.cells), name)(*([chars] if chars is not None else []))))
+                        r.pytype = getattr(obj, "pytype", None)
+                        return r
+                    I.event("bytes-strip", obj=obj, how=name, where=f.where(n), node=n)
+                    if isinstance(obj, View) and name == "rstrip":
+                        r = View(obj.root, lo=obj.lo, hi=None)        # the same start, an end that depends on the content
+                        r.stripped_of = obj
+                        return r
+                    r = Buf(cells=None, length=Sym.opaque(("len", name, I.fresh("s"))), origin=f.where(n))
+                    r.parts = [(name, obj)]
+                    return r
+                return I.mk("bytes." + name, bstrip)
             if name == "copy":
                 def bcopy(a, k, n, f):
                     if isinstance(obj, Buf):
